@@ -327,7 +327,9 @@ def run(case, out):
                                                "kw": sorting.FieldFacet("kw", allow_overlap=True),
                                                "qf": sorting.QueryFacet({"hasw": query.Term("body", "w"),
                                                                          "hasu": query.Term("body", "u")}),
-                                               "rf": sorting.RangeFacet("nm", -5, 4, 3)})
+                                               "rf": sorting.RangeFacet("nm", -5, 4, 3),
+                                               # overlapping facet on a numeric field without a column (postings only)
+                                               "nmov": sorting.FieldFacet("nm2", allow_overlap=True)})
         k_of = dict((dn, k) for k, dn in docnum.items())
 
         def group_keys(name):
@@ -360,6 +362,11 @@ def run(case, out):
             if norm != exp:
                 out.fail("c14.groups:%s" % name, {"got": str(norm)[:300], "expected": str(exp)[:300]})
                 return
+        nmg = {}
+        for d in docs:
+            nmg.setdefault(d["nm"], []).append(d["k"])
+        if not check_partition("nmov", nmg):
+            return
         kwg = {}
         for d in docs:
             for v in (d["kw"] or [None]):
